@@ -425,6 +425,12 @@ def pkg_leg(ctx, hbin, drv, stats, pk):
         lock.__exit__()
 
 
+def regenerate():
+    """Regenerate the opcode/layout tables (and generated package types) from dora-bytecode (used by ./check setup)."""
+    rc, gout = C.sh([sys.executable, os.path.join(TOOLS, "gen_bc.py")], timeout=300)
+    if rc != 0:
+        raise RuntimeError("gen_bc failed:\n" + gout[-2000:])
+
 def run(ctx):
     # -- regenerate the tables from the Rust sources (tie by regeneration)
     rc, gout = C.sh([sys.executable, os.path.join(TOOLS, "gen_bc.py")], timeout=120)
@@ -434,7 +440,7 @@ def run(ctx):
                     "the bytecode sources no longer have the shape the translator understands: %s" % gout.strip()[-300:],
                     no_input=True)
     po = C.proof_obligations(ctx, PROP_MODULE, PROP_FILE,
-                             hygiene_paths=("DoraModel/Bytecode", "DoraModel/Gen/BcOpcodes.lean", PROP_FILE))
+                             hygiene_paths=("DoraModel/Bytecode", "DoraModel/Gen/BcOpcodes.lean", "DoraModel/Gen/PkgTypes.lean", PROP_FILE))
     import time
     t_phase = [("proofs", round(time.time() - ctx.t0, 1))]
     drv, dlog = C.lean_exe("drv_c18")
@@ -480,8 +486,11 @@ def run(ctx):
                    "fails loudly on an unrecognised shape; its output is also exercised by the correspondence run)",
                    "hand-written primitives DoraModel/Bytecode/Model.lean, Writer.lean (varint, fixed u32, patching, labels) "
                    "tied by the correspondence run only",
-                   "bincode 2.0.1 wire format as transcribed in DoraModel/Bytecode/Bincode.lean, validated against the real "
-                   "crate on generated and damaged encodings of 23 types (not on the Program type tree)",
+                   "bincode 2.0.1 wire format as transcribed in DoraModel/Bytecode/Bincode.lean + the derive layout in "
+                   "Schema.lean (struct = fields in order, enum = variant position as u32 + fields), validated against the real "
+                   "crate: 23 value types on generated/damaged encodings, and the whole `Program` tree (type table regenerated "
+                   "from the #[derive(Encode, Decode)] items by tools/gen_bc.py into Gen/PkgTypes.lean) on every real package of "
+                   "the run (decode -> encode byte-identical) and on every damaged copy (refused by both or same re-encoding)",
                    "harness h_c18 (+ generated gen_dispatch.rs), driver drv_c18, checks/c18.py",
                    "debug-build semantics of Rust arithmetic (shift overflow in read_u32_variable panics)"],
                theorems=po["theorems"],
@@ -498,8 +507,9 @@ def run(ctx):
                packages=pk)
     ctx.write_evidence("proof", cov, assumptions=[
         "operands are below 2^32 (the writer casts with `as u32`); larger register numbers are outside the statement",
-        "the Lean bincode codec is proved/validated for primitives and combinators; the derive-generated codec of the whole "
-        "`Program` type tree is exercised on the real code only (decode -> encode identical, fixed point under damage), not modelled",
+        "programs are modelled as generic value trees typed by the generated table (a deep embedding), not as Lean structures; "
+        "pkg_roundtrip is stated with an explicit nesting bound `fuel` (decodeAll uses (len+2)*(table size+1)); that this "
+        "fuel always suffices and that decoded values are well-formed is observed on every package (wf=true), not proved",
         "a damaged package that is itself a well-formed package is accepted (there is no integrity check in the format); the check "
         "demands 'no crash', an error message on refusal, and that accepted bytes decode to a re-encodable program",
         "package-vs-source builds are compared as assembly text (`dora compile --cannon -S`, baseline code generator) for every "
